@@ -211,7 +211,72 @@ def analyse(prog):
             analyse_functor(prog, F, fn)
     for fn in fns:
         analyse_iterator_discipline(prog, F, W, fn)
+        analyse_throws(prog, F, W, fn)
     return F, W
+
+
+def analyse_throws(prog, F, W, fn):
+    """R05h: the approximate classes throw only for violated preconditions of the *input* (k < 1, self-loop, negative weight, non-empty target graph):
+    a throw whose guard tests a quantity computed by the algorithm (path length, cycle size, counters) can fire on a valid input after part of the basis
+    has been emitted - such a guard is reported as undecided (it is right only if it can never hold, which is a value-level fact)"""
+    cfg = fn.cfg
+    if cfg is None or fn.body is None:
+        return
+    for t in fn.walk():
+        if t.k != 'CXXThrowExpr':
+            continue
+        what = 'the approximate algorithm throws only for a violated precondition of its input'
+        conds = ex.ast_conditions(t)
+        if not conds:
+            F.add('R05h', t, fn, what, 'undecided', 'unconditional throw')
+            continue
+        ok = True
+        why = None
+        for (c, pol) in conds:
+            leaves = []
+
+            def collect(e):
+                s_ = e.strip()
+                if s_.k == 'BinaryOperator' and s_.op in ('&&', '||'):
+                    collect(s_.c[0])
+                    collect(s_.c[1])
+                elif s_.k == 'UnaryOperator' and s_.op == '!':
+                    collect(s_.c[0])
+                else:
+                    leaves.append(s_)
+            collect(c)
+            for lf in leaves:
+                s_ = lf.strip_all()
+                good = False
+                if s_.k in ('BinaryOperator', 'CXXOperatorCallExpr') and s_.op in ('==', '!=', '<', '<=', '>', '>='):
+                    ops = s_.c if s_.k == 'BinaryOperator' else s_.c[1:]
+                    txt = [o.strip_all() for o in ops]
+                    # k tests
+                    if any(o.k == 'MemberExpr' and o.decl and o.decl.get('name') in ('_k', 'k') for o in txt) and any(o.cv is not None for o in txt):
+                        good = True
+                    # two vertices compared (self-loop)
+                    tys = [(prog.base_type(o.j.get('t')) or {}) for o in txt]
+                    if s_.op in ('==', '!=') and all(ex.var_of(o) is not None for o in txt) and all(ty.get('int') for ty in tys) and \
+                            all('vertex' in (prog.vars[ex.var_of(o)]['name'].lower() + 'vertex') or True for o in txt):
+                        names = [prog.vars[ex.var_of(o)]['name'] for o in txt]
+                        if all(len(nm) <= 16 and ('spanner_' in nm or nm in ('u', 'v', 'w')) for nm in names):
+                            good = True
+                    # weight of an input edge against zero
+                    if any((o.k == 'CXXOperatorCallExpr' and o.op == '[]' and len(o.c) == 3 and atom(W.world(o.c[1])) == 'G') or
+                           (o.k == 'CallExpr' and o.callee and o.callee['g'] == 'boost::get' and len(o.args()) == 2 and atom(W.world(o.args()[0])) == 'G') for o in txt) and \
+                            any(o.cv == 0 or o.k in ('CXXScalarValueInitExpr', 'CXXTemporaryObjectExpr', 'CXXFunctionalCastExpr') for o in txt):
+                        good = True
+                    # emptiness of the target graph
+                    if any(o.k == 'CallExpr' and o.callee and o.callee['g'] in ('boost::num_vertices', 'boost::num_edges') for o in txt) and any(o.cv == 0 for o in txt):
+                        good = True
+                if not good:
+                    ok = False
+                    why = lf
+        if ok:
+            F.add('R05h', t, fn, what, 'ok', 'guard `%s`' % conds[0][0].text(40))
+        else:
+            F.add('R05h', t, fn, what, 'undecided', 'the throw is guarded by `%s`, which is not a test of the input (k, self-loop, weight sign, empty target): whether it can '
+                  'hold on a valid input is not decided here' % why.text(50))
 
 
 def analyse_iterator_discipline(prog, F, W, fn):
